@@ -30,6 +30,11 @@ func (c *Ctx) callModel(fn *ssa.Function, args []Value) (Value, bool) {
 			return r, true
 		}
 	}
+	if c.skipModelFor == fn {
+		// a model declined: interpret the real body this once
+		c.skipModelFor = nil
+		return nil, false
+	}
 	full := infoOf(fn).model
 	if m, ok := models[full]; ok {
 		c.Ex.noteModel(full)
@@ -1680,6 +1685,10 @@ func registerLibModels() {
 			c.Ex.noteModel("havoc:strconv.FormatFloat")
 			return c.havocResult(fn)
 		}
+		if fn.Blocks != nil {
+			c.skipModelFor = fn
+			return c.CallFn(fn, a, nil)
+		}
 		c.unsupported("strconv.FormatFloat on a symbolic float")
 		return nil
 	}
@@ -1741,6 +1750,11 @@ func registerLibModels() {
 		if c.Ex.Havoc["strconv.ParseFloat"] {
 			c.Ex.noteModel("havoc:strconv.ParseFloat")
 			return c.havocResult(fn)
+		}
+		// symbolic text that no model wrote (e.g. source bytes): interpret strconv's own code
+		if fn.Blocks != nil {
+			c.skipModelFor = fn
+			return c.CallFn(fn, a, nil)
 		}
 		c.unsupported("strconv.ParseFloat on symbolic text")
 		return nil
